@@ -307,6 +307,93 @@ def judge_refusal(s, r):
     return None
 
 
+# ---------------------------------------------------------------- C05 / C06: two-step histories
+def step2(s, tree_after, extra):
+    """the same patch against the tree the first run left, with extra options"""
+    t = dict(s)
+    t["tree"] = {p: (k, m, d) for p, (k, m, d, *_) in tree_after.items()}
+    t["opts"] = dict(s["opts"]); t["opts"].update(extra)
+    return t
+
+
+def first_hunk_still_applies(sec):
+    """the inherently ambiguous case: the first hunk's old side is still exactly at its stated place in B"""
+    hs = sec["hs"]
+    if not hs:
+        return True
+    h = hs[0]
+    old = [(t, nl) for o, t, nl in h["body"] if o != "+"]
+    b = sec["b"]
+    pos = h["os"] - 1 if h["oc"] else h["os"]
+    if not old:
+        return True            # a pure insertion always 'fits'
+    return b[pos:pos + len(old)] == old
+
+
+def history_runs(run_, exe, rng, n, prop):
+    bad, mism = [], []
+    base = []
+    for _ in range(n):
+        kinds = ["change", "change", "change", "add", "delete"] if prop == "C05" else ["change"]
+        if prop == "C05" and rng.random() < 0.3:
+            kinds = ["rename", "change", "add", "delete"]
+        s = scen.gen_scenario(rng, kinds=kinds, opts=rng.choice([{}, {}, {"nl": "keep"}]), drift=0)
+        base.append(s)
+    r1, b1, m1 = l2_family(run_, exe, base, lambda s, r: None, cls=lambda s, r: "first run exit %d" % r["exit"], label=prop)
+    mism += m1
+    variants = [("R", {"R": 1})] if prop == "C05" else [("N", {"N": 1}), ("t", {"t": 1}), ("f", {"f": 1})]
+    for name, extra in variants:
+        second, idx = [], []
+        for i, (s, r) in enumerate(zip(base, r1)):
+            if r["exit"] != 0:
+                continue
+            second.append(step2(s, r["tree"], extra)); idx.append(i)
+
+        def judge(t, r, name=name):
+            i = idx[second.index(t)] if False else None
+            return None
+        r2, b2, m2 = l2_family(run_, exe, second, lambda s, r: None, cls=lambda s, r, name=name: "second run -%s exit %d" % (name, r["exit"]), label=prop)
+        mism += m2
+        for j, (t, r) in enumerate(zip(second, r2)):
+            s = base[idx[j]]
+            orig = {p: (k, m, d) for p, (k, m, d) in s["tree"].items()}
+            after1 = tree_no_meta(r1[idx[j]]["tree"])
+            after2 = tree_no_meta(r["tree"])
+            rep = dict(scenario=describe(s), second_run=dict(argv=l2.opts_to_argv(t["opts"]), exit=r["exit"], stdout=r["stdout"].decode("latin-1")[-1200:],
+                                                             stderr=r["stderr"].decode("latin-1")[-400:], tree=fmt_tree(r["tree"])))
+            ambiguous = any(first_hunk_still_applies(x) for x in s["secs"]) or any(x["kind"] in ("add", "delete") for x in s["secs"])
+            if name == "R":
+                if r["exit"] != 0:
+                    bad.append((idx[j], "apply then apply -R: the reverse run exits %d" % r["exit"], rep)); continue
+                d = diff_trees(orig, after2)
+                if d:
+                    bad.append((idx[j], "apply then apply -R does not restore the original tree: " + "; ".join(d[:3]), rep))
+            elif ambiguous:
+                continue
+            elif name == "N":
+                extra_files = {p: v for p, v in after2.items() if p not in after1}
+                changed = [p for p in after1 if after2.get(p) != after1[p]]
+                if changed:
+                    bad.append((idx[j], "re-applying with -N changed %s" % changed[:3], rep)); continue
+                if r["exit"] != 1:
+                    bad.append((idx[j], "re-applying with -N exits %d instead of 1" % r["exit"], rep)); continue
+                out = r["stdout"].decode("latin-1")
+                nh = sum(len(x["hs"]) for x in s["secs"])
+                ign = sum(int(a) for a, b, c in SUMMARY_RE.findall(out) if c == "ignored")
+                rej = sum(count_reject_hunks(v[2]) for p, v in extra_files.items() if p.endswith(".rej"))
+                if ign != nh or rej != nh:
+                    bad.append((idx[j], "re-applying with -N: %d hunks, %d reported ignored, %d saved as rejects" % (nh, ign, rej), rep))
+            elif name == "t":
+                d = diff_trees(orig, {p: v for p, v in after2.items() if not p.endswith(".orig")})
+                if d or r["exit"] != 0:
+                    bad.append((idx[j], "re-applying with -t does not restore the original (exit %d): %s" % (r["exit"], "; ".join(d[:3])), rep))
+            elif name == "f":
+                # no guess: the answer must not mention a reversed patch
+                if "eversed" in r["stdout"].decode("latin-1"):
+                    bad.append((idx[j], "-f still guessed that the patch is reversed", rep))
+    return bad, mism
+
+
 def run(prop, tier, seed):
     run_ = Run(prop, tier, seed)
     if THEOREMS.get(prop):
@@ -340,6 +427,10 @@ def run(prop, tier, seed):
                                 (a["exit"], len(events_of(a)), b["exit"], len(events_of(b))),
                                 dict(scenario=describe(scns[i]), dry=dict(exit=a["exit"], stdout=a["stdout"].decode("latin-1")[-800:], stderr=a["stderr"].decode("latin-1")[-300:]),
                                      real=dict(exit=b["exit"], stdout=b["stdout"].decode("latin-1")[-800:], stderr=b["stderr"].decode("latin-1")[-300:]))))
+        elif prop in ("C05", "C06"):
+            b2, m2 = history_runs(run_, exe, rng, 200 if q else 3000, prop)
+            bad += b2; mism += m2
+            scns = []
         elif prop == "C16":
             scns = scenarios_for(prop, rng, n)
             _, b2, m2 = l2_family(run_, exe, scns, judge_c16, cls=lambda s, r: "exit %d" % r["exit"])
